@@ -529,3 +529,42 @@ def run(ctx):
                     "scipy.stats.pearsonr (not modelled; enters as oracle)"]
     multi_epoch(ctx)
     dual_modules(ctx)
+    pruning_row_module(ctx)
+
+
+def pruning_row_module(ctx):
+    """row module = TopoART (its pruning rounds re-index the categories and rewrite labels_ during the row pass):
+    bicluster membership must agree with the row_labels_ / column_labels_ the estimator reports after fit"""
+    from artlib import BARTMAP, FuzzyART, TopoART
+    cov = ctx.cov
+    for i in range(ctx.scale(30, 400)):
+        r = gen.rng_for(ctx.seed, "C17/topo", i)
+        n = r.choice([8, 10, 12])
+        ga, gb = r.randint(2, 4), r.randint(2, 3)
+        cen = [[r.random() for _ in range(gb)] for _ in range(ga)]
+        X = np.array([[cen[a % ga][b % gb] + 0.08 * r.random() for b in range(n)] for a in range(n)])
+        X[r.randrange(n)] = [r.random() for _ in range(n)]          # an outlier row: a category that stays below phi
+        eta = r.choice([-1.0, -0.5, 0.0])
+        tau, phi = r.choice([(3, 2), (4, 2), (5, 3), (2, 2)])
+        rho = r.choice([0.5, 0.7, 0.8])
+        rep = {"n": n, "eta": eta, "tau": tau, "phi": phi, "rho": rho, "X": X.tolist()}
+        bm = BARTMAP(TopoART(FuzzyART(rho, 0.01, 1.0), 0.5, tau, phi), FuzzyART(r.choice([0.5, 0.7]), 0.01, 1.0), eta)
+        try:
+            with quiet():
+                bm.fit(X)
+        except Exception as e:
+            cov.hit("topo-rows:raised:" + classify(e, X, bm))
+            continue
+        rl, cl = np.asarray(bm.row_labels_), np.asarray(bm.column_labels_)
+        na, nb = int(bm.n_row_clusters), int(bm.n_column_clusters)
+        rows_, cols_ = np.asarray(bm.rows_), np.asarray(bm.columns_)
+        pruned = len(bm.module_a.W) < len(set(range(n))) and bm.module_a.sample_counter_ >= tau
+        if rows_.shape != (na * nb, n) or cols_.shape != (na * nb, n):
+            ctx.issue("violation", "BARTMAP.fit:topo-rows:shapes", f"rows_ {rows_.shape} columns_ {cols_.shape}; {na} row x {nb} column clusters", rep)
+        elif any(not (np.array_equal(rows_[a * nb + b], rl == a) and np.array_equal(cols_[a * nb + b], cl == b))
+                 for a in range(na) for b in range(nb)):
+            ctx.issue("violation", "BARTMAP.fit:topo-rows:membership",
+                      f"a bicluster differs from the pre-images of row_labels_ {rl.tolist()} / column_labels_ {cl.tolist()} "
+                      f"(TopoART row module, pruning every {tau} samples)", rep)
+        cov.hit("topo-rows:fit-returned" + (":relabelled" if (rl < 0).any() or len(bm.module_a.W) < rl.max() + 2 else ""))
+        cov.case(("topo-rows", n, eta, tau, phi, i), True)
